@@ -14,6 +14,7 @@ import (
 	"fmt"
 	"runtime"
 	"strings"
+	"unsafe"
 
 	real "golang.org/x/sys/unix"
 
@@ -755,6 +756,62 @@ func rawsys(raw bool, trap, a1, a2, a3, a4, a5, a6 uintptr) (r1, r2 uintptr, err
 		return real.RawSyscall6(trap, a1, a2, a3, a4, a5, a6)
 	}
 	return real.Syscall6(trap, a1, a2, a3, a4, a5, a6)
+}
+
+// EpollCtlP / EpollWaitP replace gnet's raw unix.RawSyscall6(SYS_EPOLL_CTL|SYS_EPOLL_WAIT, ..)
+// calls (poll_opt build; rewritten by cmd/check/instrument.go). They take the event argument as a
+// real pointer: the goroutine parks at a scheduling point before the system call and its stack,
+// where gnet keeps the epoll_event, may be moved by the runtime meanwhile.
+//
+//go:norace
+func EpollCtlP(epfd, op, fd uintptr, ev unsafe.Pointer) (r1, r2 uintptr, err real.Errno) {
+	if !sched.Active() {
+		return real.RawSyscall6(real.SYS_EPOLL_CTL, epfd, op, fd, uintptr(ev), 0, 0)
+	}
+	name := epollOpName[int(op)]
+	sched.Point(name, int64(fd))
+	L.use(name, int(fd))
+	L.use("epoll_ctl", int(epfd))
+	dev := deviation(name, int(fd), 0)
+	if e, ok := errnoByName[dev]; ok {
+		L.log(name, int(fd), int(epfd), -1, e, "fw", dev)
+		return ^uintptr(0), 0, e
+	}
+	r1, r2, err = real.RawSyscall6(real.SYS_EPOLL_CTL, epfd, op, fd, uintptr(ev), 0, 0)
+	var e error
+	if err != 0 {
+		e = err
+	}
+	L.log(name, int(fd), int(epfd), int(r1), e, "fw", "")
+	return
+}
+
+//go:norace
+func EpollWaitP(epfd uintptr, events unsafe.Pointer, n, msec uintptr) (r1, r2 uintptr, err real.Errno) {
+	if !sched.Active() {
+		if int32(msec) == 0 {
+			return real.RawSyscall6(real.SYS_EPOLL_WAIT, epfd, uintptr(events), n, 0, 0, 0)
+		}
+		return real.Syscall6(real.SYS_EPOLL_WAIT, epfd, uintptr(events), n, msec, 0, 0)
+	}
+	fd := int(epfd)
+	if int32(msec) != 0 {
+		sched.BlockUntil(func() bool { return EpollReadable(fd) })
+	}
+	sched.Point("epoll_wait", int64(fd))
+	L.use("epoll_wait", fd)
+	dev := deviation("epoll_wait", fd, 0)
+	if e, ok := errnoByName[dev]; ok {
+		L.log("epoll_wait", fd, int(int32(msec)), -1, e, "fw", dev)
+		return ^uintptr(0), 0, e
+	}
+	r1, r2, err = real.RawSyscall6(real.SYS_EPOLL_WAIT, epfd, uintptr(events), n, 0, 0, 0)
+	var e error
+	if err != 0 {
+		e = err
+	}
+	L.log("epoll_wait", fd, int(int32(msec)), int(r1), e, "fw", "")
+	return
 }
 
 // Forget marks fd as closed by its owner outside the shim (harness closes with raw close(2)).
